@@ -86,6 +86,8 @@ var c10Files = map[string]string{
 	"components/UiBadge.vuego": `<b class="badge">{{ label }}</b>`,
 	// a program that DEFINES variables in every kind of scope (top level, loop body, included component, bound and plain <template> attributes) and a
 	// program that only READS those names, in every kind of scope: nothing the first one defined is visible in the second, whatever ran before
+	// one static style text merged with bound styles that do / do not override its declarations, from render to render
+	"stylecache.vuego": `<div style="color:red;margin:0" :style="extra">x</div><p style="color:red;margin:0" v-show="d">y</p>`,
 	"rows.vuego": `<i v-for="r in rows">{{ r.label }}|{{ r.count }};</i><b>{{ one.label }}|{{ one.count }}</b>`,
 	"leaksrc.vuego": `<template canary="CANARY-7f3a" other="x"></template><ul><li v-for="p in items"><template canary="CANARY-7f3a" pp="{{ p }}"></template>{{ p }}{{ canary }}</li></ul>` +
 		`<template include="leakcomp.vuego" :canary3="'CANARY-7f3a'"></template><div v-for="(i, p) in items"><template :canary2="'CANARY-7f3a'"></template><b>{{ canary2 }}</b></div>`,
@@ -130,6 +132,13 @@ func c10Progs() []c10Prog {
 			out = append(out, c10Prog{fmt.Sprintf("%s/%d", f, v), f + ".vuego", c10Data(v), ""})
 		}
 	}
+	sc := func(extra string, show bool) func() map[string]any {
+		return func() map[string]any { return map[string]any{"extra": extra, "d": show} }
+	}
+	out = append(out,
+		c10Prog{"stylecache/add", "stylecache.vuego", sc("padding:1px", true), "<div style=\"color:red;margin:0;padding:1px;\">x</div>\n<p style=\"color:red;margin:0\">y</p>\n"},
+		c10Prog{"stylecache/override", "stylecache.vuego", sc("color:blue", false), "<div style=\"color:blue;margin:0;\">x</div>\n<p style=\"color:red;margin:0;display:none;\">y</p>\n"},
+		c10Prog{"stylecache/both", "stylecache.vuego", sc("margin:9px;top:1px", true), "<div style=\"color:red;margin:9px;top:1px;\">x</div>\n<p style=\"color:red;margin:0\">y</p>\n"})
 	out = append(out, c10Prog{"rows/a", "rows.vuego", c10RowsA, "<i>la|1;</i>\n<i>lb|2;</i>\n<b>lone|9</b>\n"}, c10Prog{"rows/b", "rows.vuego", c10RowsB, "<i>lc|3;</i>\n<i>ld|4;</i>\n<b>ltwo|8</b>\n"})
 	for _, f := range []string{"types", "chain"} {
 		for v := 0; v < 7; v++ {
